@@ -146,6 +146,9 @@ func (*thematicBreakPraser).Continue
 func (*blockquoteParser).process
   requires text.rdOK(reader) && text.rdLive(reader) && text.plainReader(reader)
   ensures [line] lineKept(reader)
+  // the marker: at most three columns of indentation, the '>', and at most one following space or tab - never more of the line
+  ensures [marker] (result && text.rdLive(reader)) ==> text.rdStart(reader) <= old(text.rdStart(reader)) + 5
+  ensures [untouched] !result ==> (text.rdStart(reader) == old(text.rdStart(reader)) && text.rdPad(reader) == old(text.rdPad(reader)))
 func (*blockquoteParser).Open
   requires text.rdOK(reader) && text.rdLive(reader) && text.plainReader(reader)
   ensures [line] lineKept(reader)
